@@ -127,7 +127,12 @@ impl OpWorld {
     /// runner would interpret; the pools of the history properties are)
     pub fn run(&mut self, cmd: &str, args: &[String]) -> Out {
         if let Some(exit) = self.run_mode {
-            return self.run_as_script(cmd, &args_vec(args), exit);
+            // only arguments that survive being written into a script line verbatim (the rest of the history
+            // still runs, through the direct path)
+            let plain = |a: &String| a.chars().all(|c| c.is_alphanumeric() || " :_-./,".contains(c)) && !a.starts_with(' ') && !a.ends_with(' ') && !a.contains("  ");
+            if args.iter().all(plain) {
+                return self.run_as_script(cmd, &args_vec(args), exit);
+            }
         }
         let mut si = ScriptInstruction::new();
         si.command = Some(cmd.to_string());
